@@ -4,7 +4,8 @@
 //   transp1d gen rand SEED COUNT         random streams (see gen_rand)
 //   transp1d run < cases
 // case line :  "T1 bal n m u_1..u_n v_1..v_m s_1..s_n d_1..d_m"     (bal=1: call balanceDemand() first)
-// result    :  "D d_1..d_m | S i j a;i j a;... | A a_1..a_n | O optcost"
+// result    :  "D d_1..d_m | S i j a;i j a;... | A a_1..a_n | O optcost"   ("DIED ..." when the worker process died on the case,
+//              "SKIPPED ..." for the rest of the input after 30 deaths / 3000 worker replacements)
 //              D = demands after the optional balanceDemand(); S = solve() in the returned order; A = assign();
 //              O = optimal cost found by an independent successive-shortest-path min-cost flow (only when n*m <= 64 and the
 //              total supply is <= 4000, "-" otherwise or when infeasible).  A part is "THROW <what>" when the call threw.
@@ -144,8 +145,12 @@ int main(int argc, char **argv) {
   // replaced, the parent writes "DIED ..." for the case in hand and a new worker continues with the next case
   std::vector<std::string> lines; std::string line;
   while (std::getline(std::cin, line)) lines.push_back(line);
-  size_t idx = 0;
+  size_t idx = 0; int deaths = 0, restarts = 0;
   while (idx < lines.size()) {
+    if (deaths >= 30 || restarts >= 3000) {   // a broken tree: enough failing cases were shown, do not spend hours on crash reports
+      for (; idx < lines.size(); ++idx) printf("SKIPPED too many crashes\n");
+      break;
+    }
     int fd[2]; if (pipe(fd) != 0) return 2;
     fflush(stdout);
     pid_t pid = fork();
@@ -174,7 +179,9 @@ int main(int argc, char **argv) {
     close(fd[0]);
     int status = 0; waitpid(pid, &status, 0);
     idx += done;
+    ++restarts;
     if (idx < lines.size() && (hung || !(WIFEXITED(status) && WEXITSTATUS(status) == 0))) {
+      ++deaths;
       // the worker died on case idx before printing its line
       if (hung) printf("DIED timeout\n");
       else if (WIFSIGNALED(status)) printf("DIED signal %d (%s)\n", WTERMSIG(status), strsignal(WTERMSIG(status)));
